@@ -91,6 +91,7 @@ class Harness:
         self.ids = ['a1', 'a2', 'a3'] + (['a4'] if foreign else []) + ['zz']
         self._ops = [['look']] + [['add', k] for k in self.keys] + [['remove', i] for i in self.ids] + [['complete']]
 
+
     def fresh(self):
         w = World()
         w.model = new_model(seed=1)
@@ -156,6 +157,7 @@ class Harness:
         if op[0] == 'complete':
             w.model.complete()      # a finished model still has an environment: agents may leave and (re-)join
             return
+
         if op[0] == 'add':
             key = op[1]
             aid = self.idof[key]
@@ -428,6 +430,37 @@ def crowd_case(case):
     return 3 * n
 
 
+def renamed_case(case):
+    """An agent's id attribute is re-assigned while it lives in the environment (to a name nobody uses, or two residents
+    swap theirs): the environment knows its agents under the ids they JOINED with - removal by that id removes that
+    agent and nobody else, lookups by that id find it."""
+    from mc.engine.seams import reset_library
+    reset_library()
+    m = new_model(seed=1)
+    if case['kind'] == 'grid':
+        m.environment = Envs.GridWorld(m, 3, 3)
+    env = m.environment
+    a, b, c = (Core.Agent(k, m) for k in ('a', 'b', 'c'))
+    for i, ag in enumerate((a, b, c)):
+        ag.add_component(X(ag, m))
+        (env.add_agent(ag, i, 0) if case['kind'] == 'grid' else env.add_agent(ag))
+    if case['how'] == 'fresh_name':
+        a.id = 'renamed'
+    else:
+        a.id, c.id = c.id, a.id
+    if env.get_agent('a') is not a or env.get_agent('c') is not c or [x for x in env] != [a, b, c]:
+        raise Violation(f'after the id attributes of residents were re-assigned ({case["how"]}): lookup / iteration by joining id')
+    env.remove_agent('a')
+    left = [x for x in env]
+    if left != [b, c] or env.get_agent('a') is not None or env.get_agent('c') is not c or len(env) != 2:
+        raise Violation(f'remove_agent("a") after the id attributes of residents were re-assigned ({case["how"]}, {case["kind"]}): '
+                        f'the agent that joined as "a" leaves and nobody else', expected=['b', 'c (joined as)'],
+                        observed=[('a' if x is a else 'b' if x is b else 'c') for x in left])
+    if [comp.agent for comp in (m.systems[X] or [])] != [b, c]:
+        raise Violation('component listing after that removal', expected=['b', 'c'])
+    return 3
+
+
 def _diff(a, b):
     sa, sb = repr(a), repr(b)
     i = 0
@@ -456,7 +489,16 @@ def run(ctx):
         except Violation as v:
             ctx.report(case, v)
             return
-    ctx.leg('crowd', note='1500 agents in the plain environment and on a 40x40 grid')
+    for kind in ('plain', 'grid'):
+        for how in ('fresh_name', 'swap'):
+            case = {'leg': 'renamed', 'kind': kind, 'how': how}
+            ctx.traces += 1
+            try:
+                ctx.transitions += hbfs._guard(renamed_case, case)
+            except Violation as v:
+                ctx.report(case, v)
+                return
+    ctx.leg('crowd', note='1500 agents in the plain environment and on a 40x40 grid; residents whose id attribute is re-assigned')
     # the foreign-agent legs are the largest: first, for load balance (one harness worker per leg)
     plan.sort(key=lambda p: (not p[2], p[0] != 'plain'))
     par.pmap(ctx, explore_leg, plan, procs=ctx.procs)
@@ -477,6 +519,9 @@ def explore_leg(ctx, item):
 def replay(case):
     if case['leg'] == 'crowd':
         hbfs._guard(crowd_case, case)
+        return
+    if case['leg'] == 'renamed':
+        hbfs._guard(renamed_case, case)
         return
     hbfs.replay_case(Harness(case['config']['world'], case['config'].get('aliases', False),
                              case['config'].get('foreign', False), case['config'].get('odd_ids', False)), case)
